@@ -10,6 +10,10 @@ namespace jv {
 
 struct StreamOverrun { size_t requests; };
 
+// thrown by the stubs when the plan cancels a call from inside a callback (a source that fails, a KDF that refuses a length): the caller of the
+// library sees the exception arrive - through the C entry points exactly as through the C++ ones
+struct CallbackCancelled { int where; };
+
 struct StreamReq { std::vector<uint8_t> bytes; bool scripted; };
 
 struct Stream {
@@ -30,8 +34,10 @@ struct Stream {
         limit = scripted + fair_budget;
     }
     void push(size_t size, const std::vector<uint8_t>& b) { int c = cls(size); if (c >= 0) script[c].push_back(b); }
+    long cancel_at = -1;                          // request index of the current call at which the source fails (throws); -1 = never
     void serve(void* buf, size_t n) {
         if (reqs.size() >= limit) throw StreamOverrun{reqs.size()};
+        if (cancel_at >= 0 && (long) reqs.size() == cancel_at) { cancel_at = -1; throw CallbackCancelled{0}; }
         StreamReq r; r.bytes.resize(n); r.scripted = false;
         int c = cls(n);
         if (c >= 0 && !script[c].empty()) {
@@ -52,10 +58,12 @@ struct Stream {
 
 struct HashCall { size_t outlen; std::vector<uint8_t> in; };
 struct HashStub {
+    bool cancel_next = false;   // the next hash request throws
     std::vector<HashCall> calls; bool dry = false;   // dry: record the request, write only the first 64 bytes (key lengths of 2^32 bytes and more)
     void fill(void* out, size_t outlen, const void* in, size_t inlen) {
         HashCall c; c.outlen = outlen; c.in.assign((const uint8_t*) in, (const uint8_t*) in + inlen);
         calls.push_back(c);
+        if (cancel_next) { cancel_next = false; throw CallbackCancelled{1}; }
         if (dry && outlen > 64) outlen = 64;
         uint8_t* o = (uint8_t*) out; uint32_t ctr = 0;
         while (outlen) {
